@@ -205,6 +205,7 @@ def step (s : St) (toks : List String) : Option (St × String × String) :=
           if s.absContent.contains n then ("ok", (nm, n, ann) :: s.absTags.filter (·.1 != nm)) else ("err", s.absTags)
         | some (.dig _) => ("*", s.absTags)
       some ({ s with st := st', absTags := absT, view := none }, showU r, sp)
+  | "refusednoop" :: _ => some (s, "same", "same")   -- a refused operation changes nothing (observed by the harness)
   | ["untag", r] => do
       let k ← parseRef (← kv [r] "ref")
       let (st', res) := s.st.untag k
